@@ -7,15 +7,19 @@ PID = "C03"
 EPS = 2.0 ** -53
 TRACE_CAP = 520          # harness and driver print the full trace up to this many evaluations, else min/max
 RULE = ("one case = one call Integrate(f,a,b,eps,depth) (ops swap/epssign: two calls; op seq: two to six calls of Integrate with explicit "
-        "or default depth, of the \"Adaptive-Simpson\" string overload and of Find_Epsilon made in one process); non-trivial = the recursion "
-        "tree of at least one call has a split node (more than 5 integrand evaluations) or a leaf forced by the depth limit "
+        "or default depth, of the \"Adaptive-Simpson\" string overload and of Find_Epsilon made in one process, some of them abandoned by "
+        "their integrand; op nest: one call whose integrand itself calls the integrator at every abscissa); non-trivial = the recursion "
+        "tree of at least one (outer) call has a split node (more than 5 integrand evaluations) or a leaf forced by the depth limit "
         "(non-convergence warning); distinct by case text")
 LEVEL_TEXT = ("Theorems (Coq, over the reals, for all inputs): exactness on every polynomial of degree <= 5 for every epsilon, depth and "
               "pair of limits; swapping the limits negates the value; equal limits give 0 without evaluating; the sign of epsilon is "
               "irrelevant; every evaluation abscissa lies in [min(a,b),max(a,b)] and there are at most 2^(depth+2)+1 of them, for every "
               "integrand; the same for the default depth and for the \"Adaptive-Simpson\" method of the string overload; in a sequence of "
               "calls made in one process every answer is the answer of that call made alone (the model's state is empty, and the "
-              "correspondence check runs such sequences through the library). The 4*epsilon error bound is a theorem at full strength (C03_error_bound): for every integrand with four derivatives "
+              "correspondence check runs such sequences through the library, including calls that their integrand abandons by an exception); "
+              "an integrand that itself calls the integrator (re-entrant use, as Integrate_2D does) is an ordinary integrand for the outer call "
+              "and each inner call obeys its own count and location bounds and returns what it returns when made alone (C03_reentrant_outer, "
+              "C03_reentrant_inner; checked on the library by running nested requests and repeating every inner request outside the outer call). The 4*epsilon error bound is a theorem at full strength (C03_error_bound): for every integrand with four derivatives "
               "on an open interval containing the range whose fourth derivative keeps one sign and varies by at most a factor four, every "
               "depth and epsilon, whenever no non-convergence warning is raised; the remainder of Simpson's rule it rests on is proved "
               "(C03_simpson_remainder), not assumed. Not theorems: 'to rounding' / 'plus rounding' (the theorems are about exact real "
@@ -61,31 +65,44 @@ _UN = {"neg": lambda a: -a, "exp": _wrap(math.exp), "log": _log, "sin": _wrap(ma
        "step": lambda a: 1.0 if a >= 0.0 else 0.0}
 
 
-def parse_fexpr(t, i):
-    """tokens, index -> (python function of x, next index)"""
+def _parse(t, i):
+    """tokens, index -> (python function of the list [x, y], next index)"""
     o = t[i]
-    if o == "x": return (lambda x: x), i + 1
+    if o == "x": return (lambda v: v[0]), i + 1
+    if o == "y": return (lambda v: v[1]), i + 1
     if o == "c":
-        c = tokf(t[i + 1]); return (lambda x: c), i + 2
+        c = tokf(t[i + 1]); return (lambda v: c), i + 2
     if o in "+-*/" and len(o) == 1:
-        f, j = parse_fexpr(t, i + 1); g, k = parse_fexpr(t, j)
-        if o == "+": return (lambda x: f(x) + g(x)), k
-        if o == "-": return (lambda x: f(x) - g(x)), k
-        if o == "*": return (lambda x: f(x) * g(x)), k
-        return (lambda x: _div(f(x), g(x))), k
+        f, j = _parse(t, i + 1); g, k = _parse(t, j)
+        if o == "+": return (lambda v: f(v) + g(v)), k
+        if o == "-": return (lambda v: f(v) - g(v)), k
+        if o == "*": return (lambda v: f(v) * g(v)), k
+        return (lambda v: _div(f(v), g(v))), k
     if o == "pow":
-        f, j = parse_fexpr(t, i + 1); c = tokf(t[j]); return (lambda x: _pow(f(x), c)), j + 1
+        f, j = _parse(t, i + 1); c = tokf(t[j]); return (lambda v: _pow(f(v), c)), j + 1
     if o == "pwl":
         n = int(t[i + 1]); px = [tokf(t[i + 2 + 2 * k]) for k in range(n)]; py = [tokf(t[i + 3 + 2 * k]) for k in range(n)]
-        f, j = parse_fexpr(t, i + 2 + 2 * n)
-        def pw(x):
-            a = f(x); k = 0
+        f, j = _parse(t, i + 2 + 2 * n)
+        def pw(v):
+            a = f(v); k = 0
             while k + 2 < n and a >= px[k + 1]: k += 1
             return py[k] + (a - px[k]) * ((py[k + 1] - py[k]) / (px[k + 1] - px[k]))
         return pw, j
     if o in _UN:
-        f, j = parse_fexpr(t, i + 1); u = _UN[o]; return (lambda x: u(f(x))), j
+        f, j = _parse(t, i + 1); u = _UN[o]; return (lambda v: u(f(v))), j
     raise ValueError("fexpr op " + o)
+
+
+def parse_fexpr(t, i):
+    """tokens, index -> (python function of x, next index)"""
+    f, j = _parse(t, i)
+    return (lambda x: f((x, 0.0))), j
+
+
+def parse_fexpr2(t, i):
+    """tokens, index -> (python function of x and y, next index)"""
+    f, j = _parse(t, i)
+    return (lambda x, y: f((x, y))), j
 
 
 def simulate_count(f, a, b, eps, depth, cap):
@@ -321,7 +338,7 @@ def gen_seq(rng, dmax, cap):
     for j in range(k):
         la, lb = rng.choice(limits)
         fm, pr, fxx = funs[0] if rng.random() < 0.5 else rng.choice(funs)
-        kind = rng.choice(["I", "I", "I", "D", "M", "F", "F"])
+        kind = rng.choice(["I", "I", "I", "D", "M", "F", "F", "X"])
         if pattern < 0.35:      # Find_Epsilon on a reference integrand, then Integrate on the same limits (same or other integrand)
             if j == 0: kind = "F"; la, lb = limits[0] if rng.random() < 0.8 else limits[2]
             elif j == 1:
@@ -346,11 +363,159 @@ def gen_seq(rng, dmax, cap):
             if not (e_eff == e_eff) or simulate_count(f, la, lb, e_eff, DEFAULT_DEPTH, cap) is None: kind = "I"
         et = "@" if use_last else hx(eps)
         if kind == "I": text.append(f"I {hx(la)} {hx(lb)} {et} {depth} " + fam_text(fm, pr, fxx))
+        elif kind == "X":      # the integrand abandons the integration at its k-th evaluation (first values, somewhere in the tree, at the very end)
+            kx = rng.choice([1, 2, 3, 4, 5, 6, 7, 9, rng.randint(1, 40), 2 ** (max(depth, 0) + 2) + 1, 2 ** (max(depth, 0) + 2)])
+            text.append(f"X {hx(la)} {hx(lb)} {et} {depth} {kx} " + fam_text(fm, pr, fxx))
         elif kind == "D": text.append(f"D {hx(la)} {hx(lb)} {et} " + fam_text(fm, pr, fxx))
         else: text.append(f"M {hx(la)} {hx(lb)} " + fam_text(fm, pr, fxx))
         calls.append((kind, la, lb, eps, depth, fm, pr, fxx))
     kinds = "".join(c[0] for c in calls)
     return Case(f"seq {len(calls)} " + " ".join(text), ("seq", "seq:" + kinds[:2] + ("+" if len(kinds) > 2 else "")))
+
+
+
+# ---------------------------------------------------------------- re-entrant integrands (the integrand calls the integrator)
+class OverBudget(Exception): pass
+
+
+def py_integrate(f, a, b, eps, depth, bud):
+    """Integrate(f,a,b,eps,depth) in Python floats, same operation order; bud = [remaining evaluations] (OverBudget when exhausted).
+    Generator-side cost control only."""
+    if a == b: return 0.0
+    sign = 1.0
+    if a > b: a, b, sign = b, a, -1.0
+    bud[0] -= 3
+    if bud[0] < 0: raise OverBudget()
+    c = (a + b) / 2; h = b - a; fa = f(a); fb = f(b); fc = f(c); S = (h / 6) * (fa + 4 * fc + fb)
+    def asr(a, b, eps, S, fa, fb, fc, bottom):
+        bud[0] -= 2
+        if bud[0] < 0: raise OverBudget()
+        c = (a + b) / 2; h = b - a; d = (a + c) / 2; e = (b + c) / 2; fd = f(d); fe = f(e)
+        Sl = (h / 12) * (fa + 4 * fd + fc); Sr = (h / 12) * (fc + 4 * fe + fb); S2 = Sl + Sr
+        if bottom <= 0 or abs(S2 - S) <= 15 * eps: return S2 + (S2 - S) / 15
+        return asr(a, c, eps / 2, Sl, fa, fc, fd, bottom - 1) + asr(c, b, eps / 2, Sr, fc, fb, fe, bottom - 1)
+    return sign * asr(a, b, abs(eps), S, fa, fb, fc, depth)
+
+
+def py_call(kind, f, a, b, eps, depth, bud):
+    if kind == "I": return py_integrate(f, a, b, eps, depth, bud)
+    if kind == "D": return py_integrate(f, a, b, eps, DEFAULT_DEPTH, bud)
+    if kind == "F":
+        bud[0] -= 3
+        return py_find_epsilon(f, a, b, eps)
+    if a == b: return 0.0
+    lo, hi, sign = (a, b, 1.0) if a < b else (b, a, -1.0)
+    bud[0] -= 3
+    return sign * py_integrate(f, lo, hi, py_find_epsilon(f, lo, hi, 1e-9), DEFAULT_DEPTH, bud)
+
+
+def nest_affordable(ok, a, b, eps, depth, ik, ieps, idepth, lo, hi, g, E, budget):
+    """the nested request costs at most `budget` integrand evaluations (inner ones included)"""
+    flo, _ = parse_fexpr(lo.split(), 0); fhi, _ = parse_fexpr(hi.split(), 0)
+    fg, _ = parse_fexpr2(g.split(), 0); fE, _ = parse_fexpr2(E.split(), 0)
+    bud = [budget]
+    def F(x):
+        return fE(x, py_call(ik, (lambda t: fg(x, t)), flo(x), fhi(x), ieps, idepth, bud))
+    try:
+        py_call(ok, F, a, b, eps, depth, bud)
+    except (OverBudget, RecursionError):
+        return False
+    return True
+
+
+def horner_e(es, arg):
+    """Horner form with coefficient expressions es (lowest degree first)"""
+    e = es[-1]
+    for c in reversed(es[:-1]): e = f"+ {c} * {arg} {e}"
+    return e
+
+
+def nest_line(ok, a, b, eps, depth, ik, ieps, idepth, fam, params, lo, hi, g, E):
+    o = f"{ok} {hx(a)} {hx(b)}" + (f" {hx(eps)}" if ok in "ID" else "") + (f" {depth}" if ok == "I" else "")
+    i = ik + (f" {hx(ieps)}" if ik in "IDF" else "") + (f" {idepth}" if ik == "I" else "")
+    return f"nest {o} {i} " + fam_text(fam, params, f"{lo} {hi} {g} {E}")
+
+
+def gen_nest(rng, budget):
+    """One call of Integrate whose integrand F(x) = E(x, J(x)) obtains J(x) from the integrator itself: J(x) = the value of
+    Integrate (explicit / default depth, string overload) or Find_Epsilon applied to t -> g(x,t) between lo(x) and hi(x).
+    Families: nq = polynomial g (degree <= 5 in t), constant or linear limits, E affine in J with a polynomial offset, such that F is
+    a polynomial of degree <= 5 (exactness is evaluated); nany = arbitrary g, limits and E (count, location, re-entrancy clauses).
+    Outer epsilon: reachable, unreachable (0, tiny) - the whole outer tree down to the depth limit is then realised."""
+    far = rng.random() < 0.2
+    a, b = rand_interval(rng, far)
+    w = b - a
+    ok = rng.choice(["I"] * 8 + ["D", "M"])
+    ik = rng.choice(["I"] * 5 + ["D", "M", "F", "F"])
+    depth = rng.choice([0, 1, 1, 2, 2, 3, 3, 4, 5, 6, rng.randint(-2, 0)])
+    idepth = rng.choice([0, 1, 2, 3, 4, 5, 6, rng.randint(-2, 0)])
+    while max(depth, 0) + max(idepth, 0) > 9: idepth -= 1
+    if rng.random() < 0.6:
+        # ---- polynomial family
+        fam = "nq"
+        sx = rng.choice([a, (a + b) / 2, b, a if far else 0.0])
+        U = max(abs(a - sx), abs(b - sx))
+        l0, h0 = rand_interval(rng)
+        if rng.random() < 0.3: l0, h0 = h0, l0
+        wi = abs(h0 - l0)
+        st = rng.choice([l0, h0, 0.0, (l0 + h0) / 2])
+        linear = rng.random() < 0.35
+        dt = rng.randint(0, 3 if ik == "F" else 5)
+        if linear and dt > 3: dt = rng.randint(0, 3)
+        dx = rng.randint(0, 5 - (dt + 1) if linear else 5)
+        l1 = h1 = 0.0
+        if linear:
+            l1 = rng.choice([0.0, rng.uniform(-1, 1) * wi / U]); h1 = rng.uniform(-1, 1) * wi / U
+        T = max(abs(l0 - st) + abs(l1) * U, abs(h0 - st) + abs(h1) * U, wi)
+        cij = [[(rng.choice([-1, 1]) * 10 ** rng.uniform(-2, 2) / (U ** i * T ** j) if rng.random() < 0.7 or (i == dx and j == dt) else 0.0)
+                for j in range(dt + 1)] for i in range(dx + 1)]
+        gs = sum(abs(cij[i][j]) * U ** i * T ** j for i in range(dx + 1) for j in range(dt + 1))
+        e1 = rng.choice([1.0, -1.0, rng.choice([-1, 1]) * 10 ** rng.uniform(-2, 2)])
+        prec = 10 ** rng.uniform(-9, 0) * rng.choice([1, 1, -1])
+        js = gs * (wi + (abs(l1) + abs(h1)) * U) * (abs(prec) if ik == "F" else 1.0)
+        pk = [0.0] * 6
+        if rng.random() < 0.5:
+            for k in range(rng.randint(0, 5) + 1): pk[k] = rng.choice([-1, 1]) * 10 ** rng.uniform(-2, 2) * js / U ** k
+        vals = [l0, h0, l1, h1, e1, js] + pk + [c for row in cij for c in row]
+        if not all(v == v and abs(v) < 1e200 for v in vals) or not (js > 1e-200): return None
+        ux = f"- x {C(sx)}"; ty = f"- y {C(st)}"
+        lo = C(l0) if l1 == 0.0 else f"+ {C(l0)} * {C(l1)} {ux}"
+        hi = C(h0) if h1 == 0.0 else f"+ {C(h0)} * {C(h1)} {ux}"
+        # polynomial in t whose coefficients are polynomials in u
+        g = horner_e([horner([cij[i][j] for i in range(dx + 1)], ux) for j in range(dt + 1)], ty)
+        E = f"+ * {C(e1)} y {horner(pk, ux)}"
+        params = [sx, st, l0, l1, h0, h1, e1, float(dx), float(dt)] + pk + [c for row in cij for c in row]
+        ieps = prec if ik == "F" else rng.choice([0.0, 1e-18, -1e-300, rand_eps(rng, js), rand_eps(rng, js)])
+        Fs = abs(e1) * js + sum(abs(c) * U ** k for k, c in enumerate(pk))
+        eps = rng.choice([0.0, 0.0, 1e-18, -1e-18, rand_eps(rng, w * Fs), rand_eps(rng, w * Fs)])
+    else:
+        fam = "nany"; params = []
+        u = f"/ - x {C(a)} {C(w)}"          # the outer variable scaled to [0,1]
+        p, q = rng.choice([(0.0, 1.0), (0.0, 1.0), (-0.5, 1.5), (1.0, 0.0), (0.25, 0.75), (-1.0, 1.0), (0.0, 1e-6), (1000.0, 1001.0)])
+        r = rng.random()
+        if r < 0.5: lo, hi = C(p), C(q)
+        elif r < 0.65: lo, hi = C(p), u             # triangle: equal inner limits at one outer abscissa
+        elif r < 0.8: lo, hi = u, f"+ {u} {C(q - p)}"
+        elif r < 0.9: lo, hi = f"- {C(p)} {u}", f"+ {C(q)} * {u} {u}"
+        else: lo, hi = u, u                          # always equal
+        k = rng.uniform(0.5, 8)
+        g = rng.choice([f"exp * * {C(k)} {u} y", f"abs - y {u}", f"step - y {u}", f"/ {C(1.0)} + {C(1.0)} * {C(10 * k)} * - y {u} - y {u}",
+                        f"sin + * {C(k)} {u} y", f"sqrt abs - y {u}", f"* {u} y", f"pow + + {C(1.5)} {u} abs y {hx(-2.0)}",
+                        f"/ {C(1.0)} - y {u}", f"log abs - y {u}", f"cos * {C(k)} * y {u}", f"+ x y", f"tanh * {C(20 * k)} - y {u}",
+                        f"* {C(1e300)} * {u} + {C(1e10)} y", "y", C(1.0)])
+        E = rng.choice(["y", "y", "y", f"+ y * {C(k)} x", "* y y", f"- y {C(0.5)}", f"exp neg abs y", f"* y {u}", f"abs - y {C(0.3)}",
+                        f"/ {C(1.0)} y", f"step - y {C(0.4)}", f"+ {C(1.0)} x"])
+        prec = 10 ** rng.uniform(-9, 0) * rng.choice([1, 1, -1])
+        ieps = prec if ik == "F" else rng.choice([0.0, 1e-18, rand_eps(rng, 1.0), rand_eps(rng, 1.0), 10 ** rng.uniform(-10, -2)])
+        eps = rng.choice([0.0, 0.0, 1e-18, -1e-18, rand_eps(rng, w), rand_eps(rng, w), w * 10 ** rng.uniform(-10, -2)])
+    if rng.random() < 0.3: a, b = b, a
+    if ok in "DM" or ik in "DM":
+        # default depth 20 somewhere: only when the whole request is affordable, else explicit depths
+        if not nest_affordable(ok, a, b, eps, depth, ik, ieps, idepth, lo, hi, g, E, budget):
+            if ok in "DM": ok = "I"
+            if ik in "DM": ik = "I"
+    tags = ["nest", fam, "nest:" + ok + ik] + (["far"] if far else [])
+    return Case(nest_line(ok, a, b, eps, depth, ik, ieps, idepth, fam, params, lo, hi, g, E), tuple(tags))
 
 
 def generate(rng, tier):
@@ -400,6 +565,10 @@ def generate(rng, tier):
     # several calls in one process
     for k in range(8000 if big else 500):
         cs.append(gen_seq(rng, dmax, 20000 if big else 3000))
+    # integrands that call the integrator themselves
+    for k in range(6000 if big else 320):
+        c = gen_nest(rng, 60000 if big else 6000)
+        if c is not None: cs.append(c)
     # equal limits, depth <= 0, eps = 0, nan integrand
     for _ in range(200 if big else 40):
         a, b, eps, depth, fam, params, fx = gen_any(rng, dmax)
@@ -408,6 +577,7 @@ def generate(rng, tier):
         cs.append(Case(fam_line("int", a, b, 0.0, rng.choice([0, 1, 3, 6]), "any", [], fx), ("int", "eps=0")))
         cs.append(Case(fam_line("swap", a, a, eps, depth, "any", [], fx), ("swap", "equal-limits")))
         cs.append(Case(fam_line("findeps", a, b, 10 ** rng.uniform(-12, -1), 0, "any", [], fx).replace(" 0 any", " any", 1), ("findeps",)))
+        cs.append(Case(nest_line("I", a, a, eps, depth, "I", eps, 2, "nany", [], C(0.0), C(1.0), "* x y", "y"), ("nest", "equal-limits")))
         cs.append(Case(f"seq 3 M {hx(a)} {hx(a)} any 0 {fx} D {hx(a)} {hx(a)} {hx(eps)} any 0 {fx} I {hx(a)} {hx(a)} {hx(eps)} {depth} any 0 {fx}", ("seq", "equal-limits")))
     cs.append(Case(fam_line("int", -1.0, 2.0, 1e-6, 6, "any", [], "log x"), ("int", "nan")))
     cs.append(Case(fam_line("int", 0.0, 1.0, 1e-6, 6, "any", [], "/ c 0x1p+0 x"), ("int", "inf")))
@@ -420,6 +590,8 @@ def _split(line, op):
     t = line.split()
     if op == "int":
         return [(t[0], t[1], t[2], t[3:])] if len(t) >= 3 else None
+    if op == "nest":
+        return [(t[0], t[1], t[2], t[9:])] if len(t) >= 9 else None
     if op == "seq":
         if len(t) % 5: return None
         return [(t[i], t[i + 1], t[i + 2], t[i + 3:i + 5]) for i in range(0, len(t), 5)]
@@ -431,10 +603,12 @@ def compare(c, io, mo, tol):
     ok, bit, detail = compare_lines(io, mo, tol)
     if ok: return ok, bit, detail
     op = c.line.split()[0]
-    if op != "int": return ok, bit, detail
+    if op not in ("int", "nest"): return ok, bit, detail
     a, b = _split(io, op), _split(mo, op)
     if not a or not b: return ok, bit, detail
     (v1, w1, n1, t1), (v2, w2, n2, t2) = a[0], b[0]
+    if op == "nest":       # value warn count + the six inner statistics, then the trace
+        v1 = " ".join([v1] + io.split()[3:9]); v2 = " ".join([v2] + mo.split()[3:9])
     ok2, _, d2 = compare_lines(f"{v1} {w1} {n1}", f"{v2} {w2} {n2}", tol)
     if not ok2: return False, False, d2
     if len(t1) != len(t2): return False, False, "trace lengths differ"
@@ -467,13 +641,122 @@ def parse_seq(line):
     for _ in range(n):
         kind = t[i]; a = tokf(t[i + 1]); b = tokf(t[i + 2]); i += 3
         eps = None; depth = DEFAULT_DEPTH
-        if kind in ("I", "D"):
+        kx = 0
+        if kind in ("I", "D", "X"):
             eps = "@" if t[i] == "@" else tokf(t[i]); i += 1
-        if kind == "I": depth = int(t[i]); i += 1
+        if kind in ("I", "X"): depth = int(t[i]); i += 1
+        if kind == "X": kx = int(t[i]); i += 1
         if kind == "F": eps = tokf(t[i]); i += 1
         fam, params, i = parse_family(t, i)
         _, j = parse_fexpr(t, i)
-        out.append((kind, a, b, eps, depth, fam, params, t[i:j])); i = j
+        out.append((kind if kind != "X" else "X%d" % kx, a, b, eps, depth, fam, params, t[i:j])); i = j
+    return out
+
+
+def parse_nest(line):
+    """-> dict of the nested request"""
+    t = line.split(); d = {"ok": t[1], "a": tokf(t[2]), "b": tokf(t[3]), "eps": 0.0, "depth": DEFAULT_DEPTH}; i = 4
+    if d["ok"] in "ID": d["eps"] = tokf(t[i]); i += 1
+    if d["ok"] == "I": d["depth"] = int(t[i]); i += 1
+    d["ik"] = t[i]; i += 1; d["ieps"] = 0.0; d["idepth"] = DEFAULT_DEPTH
+    if d["ik"] in "IDF": d["ieps"] = tokf(t[i]); i += 1
+    if d["ik"] == "I": d["idepth"] = int(t[i]); i += 1
+    d["fam"], d["params"], i = parse_family(t, i)
+    return d
+
+
+def poly_mul(p, q):
+    r = [Fraction(0)] * (len(p) + len(q) - 1)
+    for i, x in enumerate(p):
+        for j, y in enumerate(q): r[i + j] += x * y
+    return r
+
+
+def poly_add(p, q, sq=1):
+    n = max(len(p), len(q))
+    return [(p[k] if k < len(p) else 0) + sq * (q[k] if k < len(q) else 0) for k in range(n)]
+
+
+def nq_reference(d, imax):
+    """exact integral and a-priori rounding slack of the nested polynomial request (family nq).
+    F(x) = e1*K*int_{lo(u)}^{hi(u)} g(u,t) dt + p(u), u = x - sx, g = sum c_ij u^i (t-st)^j, lo = l0 + l1 u, hi = h0 + h1 u, K = 1 (the
+    inner call is an integration) or the precision argument (Find_Epsilon: Simpson's rule, exact for degree <= 3 in t).
+    Slack (DESIGN 5.3; see value_preds for the single call): the inner call returns J with an error dJ = the single-call slack of a
+    polynomial in t (its coefficients, polynomials in u evaluated by Horner, carry up to ~25 eps relative to sum |c_ij| U^i T^j: factor 6
+    on that sum) + the rounding of the two limits (2 eps each, relative to their terms) times max|g|; F then carries dF = |e1| dJ + 8 eps
+    max|F|.  Every leaf value S2 + (S2-S)/15 of the outer call is a linear form in five values of F with weights summing (in modulus) to at
+    most (1 + 2/15) h, so the outer result moves by at most 1.2 |b-a| dF, on top of the single-call slack of the exact F."""
+    pr = d["params"]; sx, st, l0, l1, h0, h1, e1 = pr[:7]; dx, dt = int(pr[7]), int(pr[8]); pk = pr[9:15]
+    cij = [pr[15 + i * (dt + 1):15 + (i + 1) * (dt + 1)] for i in range(dx + 1)]
+    a, b = d["a"], d["b"]; K = d["ieps"] if d["ik"] == "F" else 1.0
+    LO = [Fraction(l0) - Fraction(st), Fraction(l1)]; HI = [Fraction(h0) - Fraction(st), Fraction(h1)]
+    J = [Fraction(0)]
+    plo, phi = [Fraction(1)], [Fraction(1)]
+    for j in range(dt + 1):
+        plo = poly_mul(plo, LO); phi = poly_mul(phi, HI)          # (lo-st)^(j+1), (hi-st)^(j+1)
+        diff = [c / (j + 1) for c in poly_add(phi, plo, -1)]
+        col = [Fraction(cij[i][j]) for i in range(dx + 1)]
+        J = poly_add(J, poly_mul(col, diff))
+    Fp = poly_add([Fraction(e1) * Fraction(K) * c for c in J], [Fraction(c) for c in pk])
+    A, B = Fraction(a) - Fraction(sx), Fraction(b) - Fraction(sx)
+    I = sum(c * (B ** (k + 1) - A ** (k + 1)) / (k + 1) for k, c in enumerate(Fp))
+    # slack
+    U = max(abs(a - sx), abs(b - sx)); X = max(abs(a), abs(b)); wd = abs(b - a)
+    ends = [(l0 + l1 * u, h0 + h1 * u) for u in (a - sx, b - sx)]
+    T = max(max(abs(l - st), abs(h - st)) for l, h in ends)
+    wi = max(abs(h - l) for l, h in ends) + 4 * EPS * (abs(l0) + abs(h0) + (abs(l1) + abs(h1)) * U)
+    Xi = max(max(abs(l), abs(h)) for l, h in ends)
+    gmax = sum(abs(cij[i][j]) * U ** i * T ** j for i in range(dx + 1) for j in range(dt + 1))
+    dgt = sum(j * abs(cij[i][j]) * U ** i * T ** (j - 1) for i in range(dx + 1) for j in range(1, dt + 1))
+    dgu = sum(i * abs(cij[i][j]) * U ** (i - 1) * T ** j for i in range(1, dx + 1) for j in range(dt + 1))
+    din = max(d["idepth"], 0); leaves_in = max((imax - 1) // 4, 1)
+    dJ = ((64 + 2 * din) * EPS * wi * (6 * gmax + Xi * dgt) + (leaves_in if leaves_in > 1 else 0) * EPS * Xi / 15 * gmax
+          + 4 * EPS * (abs(l0) + abs(h0) + (abs(l1) + abs(h1)) * U) * gmax)
+    Jmax = abs(K) * wi * gmax; dJ = abs(K) * dJ + 4 * EPS * Jmax
+    pmax = sum(abs(c) * U ** k for k, c in enumerate(pk)); dp = sum(k * abs(c) * U ** (k - 1) for k, c in enumerate(pk) if k >= 1)
+    Fmax = abs(e1) * Jmax + pmax
+    dF = abs(e1) * dJ + 8 * EPS * Fmax
+    dFdx = abs(e1) * abs(K) * (wi * dgu + (abs(l1) + abs(h1)) * gmax) + dp
+    return I, Fmax, dF, dFdx
+
+
+def nest_predicates(c, io):
+    """a call whose integrand calls the integrator: the clauses of the outer call (count, location, equal limits, exactness on
+    polynomials) and, for the calls made by the integrand, their own count and location bounds and independence of the running outer call"""
+    out = []
+    d = parse_nest(c.line); t = io.split()
+    if io.startswith("EXIT"): return [("nest:exit", "the library terminated the process")]
+    if len(t) < 9: return [("nest:output", "unexpected output shape")]
+    v = tokf(t[0]); warn = t[1] == "1"; n = int(t[2]); itot, imax, iwarn, iout, imis = (int(x) for x in t[3:8]); xmis = tokf(t[8])
+    a, b, ok, ik = d["a"], d["b"], d["ok"], d["ik"]
+    dn = max(d["depth"], 0); lo, hi = min(a, b), max(a, b)
+    bound = 2 ** (dn + 2) + 1 + (3 if ok == "M" else 0)
+    tag = "nest:" + ok
+    if n > bound:
+        out.append((tag + ":count", f"the integrand (which itself calls the integrator, kind {ik}) was evaluated {n} times" + (" or more (stopped by the harness)" if v != v and n >= bound + 256 else "") + f", more than the bound {bound}"))
+    if a == b:
+        if n != 0 or v != 0.0: out.append((tag + ":equal-limits", f"equal limits returned {v!r} after {n} evaluations, expected 0 without evaluations"))
+        return out
+    if n < 5: out.append((tag + ":count-min", f"only {n} evaluations for distinct limits"))
+    pts = [tokf(x) for x in t[9:]]
+    bad = [x for x in pts if not (lo <= x <= hi)]
+    if bad: out.append((tag + ":location", f"integrand evaluated at {bad[0]!r} outside [{lo!r},{hi!r}]"))
+    # the calls made by the integrand
+    ibound = {"I": 2 ** (max(d["idepth"], 0) + 2) + 1, "D": 2 ** (DEFAULT_DEPTH + 2) + 1, "M": 2 ** (DEFAULT_DEPTH + 2) + 4, "F": 3}[ik]
+    if imax > ibound: out.append((f"nest:inner-{ik}:count", f"a call made by the integrand evaluated its own integrand {imax} times, more than the bound {ibound}"))
+    if iout: out.append((f"nest:inner-{ik}:location", f"{iout} evaluations of calls made by the integrand lie outside the limits of those calls"))
+    if imis: out.append((f"nest:inner-{ik}:reentrant", f"{imis} of the {n} calls made by the integrand while the outer integration was running were answered differently "
+                         f"(value, evaluation count or warning) from the same call made alone; first at the outer abscissa {xmis!r}"))
+    if n > bound: return out
+    if d["fam"] == "nq":
+        I, Fmax, dF, dFdx = nq_reference(d, imax)
+        X = max(abs(a), abs(b)); wd = abs(b - a)
+        leaves = max((n - (3 if ok == "M" else 0) - 1) // 4, 1)
+        slack = (64 + 2 * dn) * EPS * wd * (Fmax + X * dFdx) + (leaves if leaves > 1 else 0) * EPS * X / 15 * Fmax + 1.2 * wd * dF
+        fin = v == v and abs(v) != math.inf
+        if slack == slack and slack != math.inf and (not fin or not (abs(Fraction(v) - I) <= Fraction(slack))):
+            out.append((tag + ":quintic-exact", f"nested polynomial (degree <= 5 in the outer variable): returned {v!r}, exact integral {float(I)!r}, "
+                        f"difference {float(abs(Fraction(v) - I)) if fin else v!r} > rounding slack {slack!r}"))
     return out
 
 
@@ -542,6 +825,7 @@ def predicates(c, io):
     out = []
     if io.startswith(("CRASH", "SANITIZER", "TIMEOUT", "HARNESSERR")): return out
     if c.line.startswith("seq "): return seq_predicates(c, io)
+    if c.line.startswith("nest "): return nest_predicates(c, io)
     op, a, b, eps, depth, fam, params, fx = parse_case(c.line)
     if io.startswith("EXIT"): return [(op + ":exit", "Integrate terminated the process")]
     if op == "findeps": return out
@@ -588,8 +872,16 @@ def seq_predicates(c, io):
     last = 0.0; seen = {}
     for j, ((kind, a, b, eps, depth, fam, params, fx), (v, w, n, mm)) in enumerate(zip(reqs, res)):
         v = tokf(v); n = int(n); warn = w == "1"; pmin, pmax = tokf(mm[0]), tokf(mm[1])
-        lo, hi = min(a, b), max(a, b); tag = f"seq:{kind}"
+        lo, hi = min(a, b), max(a, b)
+        kx = 0
+        if kind.startswith("X"): kx = int(kind[1:]); kind = "X"
+        tag = f"seq:{kind}"
         where = f"call {j + 1} ({kind}) of the sequence: "
+        if kx and n >= kx:        # abandoned by the integrand at its kx-th evaluation: nothing to evaluate but the count
+            if kx > 2 ** (max(depth, 0) + 2) + 1:
+                out.append((tag + ":count", where + f"the integrand was evaluated a {kx}-th time, the bound is {2 ** (max(depth, 0) + 2) + 1}"))
+            continue
+        if kx: kind = "I"
         if n and not (lo <= pmin and pmax <= hi):
             out.append((tag + ":location", where + f"integrand evaluated in [{pmin!r},{pmax!r}], outside [{lo!r},{hi!r}]"))
         if kind == "F":
